@@ -68,7 +68,7 @@ def derivations(kind: str, chain_text: str):
     plans = []
     if kind == "NUMBER":
         # (a) all ten digits, short repetitions; (b) longer repetitions over the largest digit sub-alphabet that fits the budget
-        plans.append(("0123456789", _CFG["max_rep"]))
+        plans.append(("0123456789", 2))
         for uni in ("0123456789", "01359", "0159", "09", "9"):
             afc_try = lambda cls, u=uni: gbnf.class_members(cls, u + other)
             if gbnf.count(rules, rules["f"], afc_try, _CFG["max_rep"] + 1) <= _CFG["budget"]:
@@ -105,9 +105,12 @@ def judge(kind, chain_text, chain, line):
 
 
 def check_chain(case) -> Res:
-    kind, chain_text = case
+    kind, chain_text = case[0], case[1]
+    part, parts = (case[2], case[3]) if len(case) == 4 else (0, 1)      # big derivation sets are judged in `parts` slices (one case each)
     chain = ConstraintChain.parse(chain_text)
     ders, g = derivations(kind, chain_text)
+    if ders is not None and parts > 1:
+        ders = ders[part::parts]
     if ders is None:
         return Res("no-field-rule", violations=[dict(descriptor=f"{kind}:field-rule-missing", case=dict(chain=chain_text), observed=g[:300], expected="rule f")])
     extra_lines = []
@@ -136,8 +139,12 @@ def run(ctx):
     _CFG["max_rep"] = 2 if ctx.quick else 3
     _CFG["digits"] = "0129"
     _CFG["iso_digits"] = "01" if not ctx.quick else "1"
-    _CFG["budget"] = 150_000 if ctx.quick else 1_500_000
+    _CFG["budget"] = 150_000 if ctx.quick else 400_000
     cases = [(k, w.replace("{c}", c)) for k, cs in DECIDERS.items() for c in cs for w in WRAPS]
+    if not ctx.quick:
+        nparts = 4       # TYPE[NUMBER] has millions of derivations at 3 digits: 32 slices keep every case inside the CPU-time watchdog
+        sliced = {"NUMBER": nparts, "ISO8601": 16}
+        cases = [c for c in cases if c[0] not in sliced] + [(c[0], c[1], i, sliced[c[0]]) for c in cases if c[0] in sliced for i in range(sliced[c[0]])]
     ctx.coverage["bounds"] = {"number_digits": _CFG["max_rep"], "date_digit_alphabet": _CFG["digits"], "iso_digit_alphabet": _CFG["iso_digits"],
                               "chains": [c[1] for c in cases]}
     st = ctx.explore("derivations", cases, check_chain, chunk=1)
